@@ -2506,6 +2506,41 @@ impl<'a> Binder<'a> {
             }
         };
 
+        // Modifiers this executor does not implement are refused BY NAME:
+        // dropping them would evaluate a different function than the one
+        // the statement asks for.
+        if matches!(func.null_treatment, Some(ast::NullTreatment::IgnoreNulls)) {
+            return Err(QueryError::NotImplemented(format!(
+                "{name}(...) IGNORE NULLS OVER (...)"
+            )));
+        }
+        if func.filter.is_some() {
+            return Err(QueryError::NotImplemented(format!(
+                "{name}(...) FILTER (WHERE ...) OVER (...)"
+            )));
+        }
+        if !func.within_group.is_empty() {
+            return Err(QueryError::NotImplemented(format!(
+                "{name}(...) WITHIN GROUP (...) OVER (...)"
+            )));
+        }
+        if let ast::FunctionArguments::List(list) = &func.args {
+            if matches!(
+                list.duplicate_treatment,
+                Some(ast::DuplicateTreatment::Distinct)
+            ) {
+                return Err(QueryError::NotImplemented(format!(
+                    "{name}(DISTINCT ...) OVER (...)"
+                )));
+            }
+            if !list.clauses.is_empty() {
+                return Err(QueryError::NotImplemented(format!(
+                    "{name}(... {}) OVER (...)",
+                    list.clauses[0]
+                )));
+            }
+        }
+
         // Arguments (COUNT(*) carries a Wildcard argument).
         let args: Vec<Expr> = match &func.args {
             ast::FunctionArguments::None => vec![],
